@@ -1,4 +1,4 @@
 ------------------------------- MODULE MC_Fit -------------------------------
 EXTENDS Fit
-AllConfigs == [k : 0..3, n : {2, 3}, ntimes : 1..3, validation : BOOLEAN, optclass : BOOLEAN, lazy : BOOLEAN, init : {"default", "custom"}, pre_eval : BOOLEAN, extra : {FALSE}]
+AllConfigs == [k : 0..3, n : {2, 3}, ntimes : 1..3, validation : BOOLEAN, optclass : BOOLEAN, lazy : BOOLEAN, init : {"default", "custom"}, pre_eval : BOOLEAN, extra : {FALSE}, stale : BOOLEAN]
 =============================================================================
